@@ -60,7 +60,16 @@ func NewFileCache[MetadataT any](cfg *config.Config, rootDir string, maxCacheSiz
 			c.mu.RUnlock()
 
 			for key, metadata := range snapshot {
-				if !yield(key, metadata) {
+				// The metadata is modified under the key's lock (last access, expiry), so it is read under that
+				// lock too and handed out as a copy. An entry whose lock is taken is in use and is skipped.
+				lock := getLock(c.locks, key)
+				if !lock.TryLock() {
+					continue
+				}
+				metaCopy := *metadata
+				lock.Unlock()
+
+				if !yield(key, &metaCopy) {
 					break
 				}
 			}
@@ -170,9 +179,13 @@ func (c *FileCache[MetadataT]) Get(key CacheKey) (*Entry[MetadataT], error) {
 
 	metrics.Global.Cache.CacheHits.Increment()
 	slog.Debug("Successful cache hit", "key", key.Hex)
+	// The caller reads the metadata after the key lock is released, while a revalidation or another
+	// lookup may be updating it: hand out a copy.
+	metaCopy := *entryMeta
+
 	return &Entry[MetadataT]{
 		Data:     dataFile,
-		Metadata: entryMeta,
+		Metadata: &metaCopy,
 		Stale:    stale,
 	}, nil
 }
@@ -258,9 +271,10 @@ func (c *FileCache[MetadataT]) Cache(key CacheKey, data io.Reader, expires time.
 		return nil, fmt.Errorf("%w: failed to seek to start of cache file '%s'", ErrCacheFileRead, fileName)
 	}
 
+	metaCopy := *meta
 	return &Entry[MetadataT]{
 		Data:     file,
-		Metadata: meta,
+		Metadata: &metaCopy,
 	}, nil
 }
 
@@ -321,5 +335,6 @@ func (c *FileCache[MetadataT]) GetMetadata(key CacheKey) (meta *EntryMetadata[Me
 	metaPtr.LastAccess = time.Now() // Now safe because we have a full Lock
 
 	slog.Debug("Successfully retrieved metadata", "key", key.Hex)
-	return metaPtr, stale, nil
+	metaCopy := *metaPtr
+	return &metaCopy, stale, nil
 }
